@@ -740,4 +740,5 @@ _c01_validators = contracts
 
 
 def contracts():
-    return _c01_validators() + constructor_contracts()
+    from contracts import c12 as _c12
+    return _c01_validators() + constructor_contracts() + [_c12.setup_params_contract(["C01/"])]
